@@ -140,11 +140,11 @@ def run_case(ctx, col, case):
     text, cls = hostile(rng, style)
     # the bare GCodeCore has its own comment()/annotate()/move paths: use it for the entry points it offers
     core_ok = entry in ("comment", "comment+args", "annotate", "move", "rapid", "move_absolute", "rapid_absolute")
-    cls = GCodeCore if (core_ok and rng.random() < 0.25) else GCodeBuilder
-    if cls is GCodeCore:
+    bcls = GCodeCore if (core_ok and rng.random() < 0.25) else GCodeBuilder
+    if bcls is GCodeCore:
         col.count("core_only_pairs")
-    A = Session(comment=style, le=le, interpret=False, builder_cls=cls)
-    B = Session(comment=style, le=le, interpret=False, builder_cls=cls)
+    A = Session(comment=style, le=le, interpret=False, builder_cls=bcls)
+    B = Session(comment=style, le=le, interpret=False, builder_cls=bcls)
     innocuous = "ok" if text.strip() else text
     res = []
     for s, t in ((A, text), (B, innocuous)):
